@@ -722,12 +722,13 @@ const fn is_function_like(val: &Val) -> bool {
 }
 
 /// Native implementation of `std.primitiveEquals`
+#[allow(clippy::float_cmp)]
 pub fn primitive_equals(val_a: &Val, val_b: &Val) -> Result<bool> {
 	Ok(match (val_a, val_b) {
 		(Val::Bool(a), Val::Bool(b)) => a == b,
 		(Val::Null, Val::Null) => true,
 		(Val::Str(a), Val::Str(b)) => a == b,
-		(Val::Num(a), Val::Num(b)) => (a.get() - b.get()).abs() <= f64::EPSILON,
+		(Val::Num(a), Val::Num(b)) => a.get() == b.get(),
 		#[cfg(feature = "exp-bigint")]
 		(Val::BigInt(a), Val::BigInt(b)) => a == b,
 		(Val::Arr(_), Val::Arr(_)) => {
